@@ -1,14 +1,301 @@
-import ScryerModel.Model.AllSolRun
-/-
-C25 — All-solutions predicates collect exactly the solutions (theorems).
+import ScryerModel.Proofs.AllSol
+import ScryerModel.Proofs.Order
+/-!
+# C25 — All-solutions predicates collect exactly the solutions
+
+`findall/3,4` deliver the copies of the template for all answers of the goal, in order
+(`Scryer.AllSol.findallX`, by construction `S0 = copies ++ S1`). `bagof/3` and `setof/3` work on the
+list `sols` of copies `Witness-Template` (after `unify_variant_variables/2` made the variables of
+variant witnesses identical): `bagofGroups cmp sols` / `setofGroups cmp cmp sols` are the
+alternatives they offer on backtracking, computed as builtins.pl computes them (`keysort/2` resp.
+`sort/2`, then `split_by_variant/3,4`). The theorems below hold for EVERY solution list and every
+total preorder `cmp` presented as a three-way comparison (`TotalCmp`); `C25_standard_order_total`
+shows that the standard order of terms (C13) is one, so they apply to the lists the interpreter
+`solveX` builds. The free-variable analysis (`^`) is characterised in the last section; the pinned
+library code gets it wrong (finding C25-1) and `C25_pinned_*` are the witnesses.
+
+The lifted heap, the term copier and Rust's `keysort`/`sort` are not modelled; the implementation is
+tied to `solveX` by the differential run of vlib/props/C25.py.
 -/
 namespace Scryer.AllSol
 open Scryer
 
-/-- findall/4: the result list is the copies followed by the given tail, and collecting in two
-    steps is the same as collecting at once (`S0 = instances ++ S1`). -/
+/-! ## findall/4 -/
+
+/-- findall/4: the result is the copies followed by the given tail; collecting `xs ++ ys` in
+    front of `tl` is collecting `ys` in front of `tl` and then `xs` in front of that
+    (`findall/3` is the case `tl = []`). -/
 theorem C25_findall4_append (xs ys : List Term) (tl : Term) :
     Term.ofList (xs ++ ys) tl = Term.ofList xs (Term.ofList ys tl) := by
   simp [Term.ofList, List.foldr_append]
+
+/-- no solutions: `findall/4` unifies the result with the tail itself. -/
+theorem C25_findall4_empty (tl : Term) : Term.ofList [] tl = tl := rfl
+
+section groups
+variable {κ α : Type} {cmp : κ → κ → Ordering}
+
+/-! ## bagof/3 -/
+
+/-- bagof/3 fails (offers no alternative) iff the goal has no solution. -/
+theorem C25_bagof_fails_iff_no_solution (sols : List (κ × α)) :
+    bagofGroups cmp sols = [] ↔ sols = [] := by
+  rw [bagofGroups, splitGroups_eq_nil_iff]
+  constructor
+  · intro h
+    have := (keysort_perm (cmp := cmp) sols).length_eq
+    rw [h] at this
+    exact List.length_eq_zero_iff.mp this.symm
+  · rintro rfl; simp [keysort]
+
+/-- no group is empty. -/
+theorem C25_bagof_groups_nonempty (sols : List (κ × α)) :
+    ∀ g ∈ bagofGroups cmp sols, g.2 ≠ [] :=
+  splitGroups_ne_nil _
+
+/-- each group consists of exactly the solutions whose witness is `==` to the group's witness,
+    in the order in which the goal produced them (`keysort/2` is stable). -/
+theorem C25_bagof_group_content (h : TotalCmp cmp) (sols : List (κ × α)) :
+    ∀ g ∈ bagofGroups cmp sols,
+      g.2 = (sols.filter (fun p => cmp g.1 p.1 == .eq)).map (·.2) := by
+  intro g hg
+  rw [splitGroups_content h _ (keysort_sorted h sols) g hg, keysort_stable h]
+
+/-- the groups are enumerated in strictly ascending standard order of their witnesses; in
+    particular no two groups have `==` witnesses. -/
+theorem C25_bagof_groups_ascending (h : TotalCmp cmp) (sols : List (κ × α)) :
+    (bagofGroups cmp sols).Pairwise (fun g g' => cmp g.1 g'.1 = .lt) :=
+  splitGroups_ascending h _ (keysort_sorted h sols)
+
+/-- every solution is in a group … -/
+theorem C25_bagof_cover (h : TotalCmp cmp) (sols : List (κ × α)) :
+    ∀ p ∈ sols, ∃ g ∈ bagofGroups cmp sols, cmp g.1 p.1 = .eq := by
+  intro p hp
+  exact splitGroups_cover h _ p ((keysort_perm sols).symm.subset hp)
+
+/-- … and in only one: two groups that both match a solution's witness are the same group. -/
+theorem C25_bagof_group_unique (h : TotalCmp cmp) (sols : List (κ × α)) (p : κ × α)
+    (g g' : κ × List α) (hg : g ∈ bagofGroups cmp sols) (hg' : g' ∈ bagofGroups cmp sols)
+    (e : cmp g.1 p.1 = .eq) (e' : cmp g'.1 p.1 = .eq) : g = g' := by
+  have hasc := C25_bagof_groups_ascending h sols
+  have hee : cmp g.1 g'.1 = .eq := h.eq_trans e (h.eq_symm e')
+  rcases pairwise_total_of_mem hasc g hg g' hg' with h1 | h1 | h1
+  · exact h1
+  · simp [hee] at h1
+  · rw [h.swap g.1 g'.1, hee] at h1; simp [Ordering.swap] at h1
+
+/-- the groups partition the solutions: concatenated they are a permutation of the template
+    instances (each solution occurs in exactly one group, with its multiplicity). -/
+theorem C25_bagof_partition (sols : List (κ × α)) :
+    ((bagofGroups cmp sols).flatMap (·.2)).Perm (sols.map (·.2)) := by
+  rw [bagofGroups, splitGroups_flatten]
+  exact (keysort_perm sols).map _
+
+/-! ## setof/3 -/
+
+/-- setof/3 fails iff the goal has no solution. -/
+theorem C25_setof_fails_iff_no_solution {cmpA : α → α → Ordering} (hk : TotalCmp cmp)
+    (ha : TotalCmp cmpA) (sols : List (κ × α)) :
+    setofGroups cmp cmpA sols = [] ↔ sols = [] := by
+  rw [setofGroups, splitGroups_eq_nil_iff]
+  constructor
+  · intro h
+    cases sols with
+    | nil => rfl
+    | cons p ps =>
+      obtain ⟨y, hy, _⟩ := sortDedup_cover (pairCmp_total hk ha) (p :: ps) p (by simp)
+      rw [h] at hy; simp at hy
+  · rintro rfl; simp [sortDedup]
+
+/-- the groups of setof/3 come in strictly ascending order of their witnesses. -/
+theorem C25_setof_groups_ascending {cmpA : α → α → Ordering} (hk : TotalCmp cmp)
+    (ha : TotalCmp cmpA) (sols : List (κ × α)) :
+    (setofGroups cmp cmpA sols).Pairwise (fun g g' => cmp g.1 g'.1 = .lt) :=
+  splitGroups_ascending hk _ (sortDedup_ksorted hk ha sols)
+
+/-- each group of setof/3 is strictly ascending in the standard order: sorted, no duplicates. -/
+theorem C25_setof_group_sorted_dedup {cmpA : α → α → Ordering} (hk : TotalCmp cmp)
+    (ha : TotalCmp cmpA) (sols : List (κ × α)) :
+    ∀ g ∈ setofGroups cmp cmpA sols, g.2.Pairwise (fun a b => cmpA a b = .lt) := by
+  intro g hg
+  rw [splitGroups_content hk _ (sortDedup_ksorted hk ha sols) g hg, List.pairwise_map]
+  have hs := (sortDedup_strict (pairCmp_total hk ha) sols).sublist
+    (List.filter_sublist (p := fun p => cmp g.1 p.1 == .eq))
+  rw [List.pairwise_iff_forall_sublist] at hs ⊢
+  intro p q hpq
+  have hp : p ∈ (sortDedup (pairCmp cmp cmpA) sols).filter (fun p => cmp g.1 p.1 == .eq) :=
+    hpq.subset (by simp)
+  have hq : q ∈ (sortDedup (pairCmp cmp cmpA) sols).filter (fun p => cmp g.1 p.1 == .eq) :=
+    hpq.subset (by simp)
+  have ep : cmp g.1 p.1 = .eq := by simpa using (List.mem_filter.mp hp).2
+  have eq' : cmp g.1 q.1 = .eq := by simpa using (List.mem_filter.mp hq).2
+  have hk' : cmp p.1 q.1 = .eq := hk.eq_trans (hk.eq_symm ep) eq'
+  have := hs hpq
+  simpa [pairCmp, hk'] using this
+
+/-- every element of a setof/3 group is the template instance of a solution with that witness. -/
+theorem C25_setof_sound {cmpA : α → α → Ordering} (hk : TotalCmp cmp) (ha : TotalCmp cmpA)
+    (sols : List (κ × α)) :
+    ∀ g ∈ setofGroups cmp cmpA sols, ∀ a ∈ g.2, ∃ p ∈ sols, cmp g.1 p.1 = .eq ∧ p.2 = a := by
+  intro g hg a ha'
+  rw [splitGroups_content hk _ (sortDedup_ksorted hk ha sols) g hg] at ha'
+  obtain ⟨p, hp, rfl⟩ := List.mem_map.mp ha'
+  obtain ⟨hp1, hp2⟩ := List.mem_filter.mp hp
+  exact ⟨p, sortDedup_sub _ p hp1, by simpa using hp2, rfl⟩
+
+/-- every solution is represented in the group of its witness (by an element `==` to it). -/
+theorem C25_setof_complete {cmpA : α → α → Ordering} (hk : TotalCmp cmp) (ha : TotalCmp cmpA)
+    (sols : List (κ × α)) :
+    ∀ p ∈ sols, ∃ g ∈ setofGroups cmp cmpA sols, cmp g.1 p.1 = .eq ∧
+      ∃ a ∈ g.2, cmpA p.2 a = .eq := by
+  intro p hp
+  obtain ⟨y, hy, he⟩ := sortDedup_cover (pairCmp_total hk ha) sols p hp
+  have he1 : cmp p.1 y.1 = .eq ∧ cmpA p.2 y.2 = .eq := by
+    simpa [pairCmp, Ordering.then_eq_eq] using he
+  obtain ⟨g, hg, hgy⟩ := splitGroups_cover hk _ y hy
+  refine ⟨g, hg, hk.eq_trans hgy (hk.eq_symm he1.1), y.2, ?_, he1.2⟩
+  rw [splitGroups_content hk _ (sortDedup_ksorted hk ha sols) g hg]
+  exact List.mem_map.mpr ⟨y, List.mem_filter.mpr ⟨hy, by simp [hgy]⟩, rfl⟩
+
+/-- a setof/3 group and the bagof/3 group with the same witness have the same elements up to `==`:
+    setof = bagof + sort + dedup, group by group. -/
+theorem C25_setof_vs_bagof {cmpA : α → α → Ordering} (hk : TotalCmp cmp) (ha : TotalCmp cmpA)
+    (sols : List (κ × α)) (g b : κ × List α) (hg : g ∈ setofGroups cmp cmpA sols)
+    (hb : b ∈ bagofGroups cmp sols) (e : cmp g.1 b.1 = .eq) :
+    (∀ a ∈ g.2, a ∈ b.2) ∧ (∀ a ∈ b.2, ∃ a' ∈ g.2, cmpA a a' = .eq) := by
+  constructor
+  · intro a ha'
+    obtain ⟨p, hp, hpk, rfl⟩ := C25_setof_sound hk ha sols g hg a ha'
+    rw [C25_bagof_group_content hk sols b hb]
+    refine List.mem_map.mpr ⟨p, List.mem_filter.mpr ⟨hp, ?_⟩, rfl⟩
+    simp [hk.eq_trans (hk.eq_symm e) hpk]
+  · intro a ha'
+    rw [C25_bagof_group_content hk sols b hb] at ha'
+    obtain ⟨p, hp, rfl⟩ := List.mem_map.mp ha'
+    obtain ⟨hp1, hp2⟩ := List.mem_filter.mp hp
+    have hbp : cmp b.1 p.1 = .eq := by simpa using hp2
+    obtain ⟨g', hg', hg'p, a', ha'', he'⟩ := C25_setof_complete hk ha sols p hp1
+    have hasc := C25_setof_groups_ascending hk ha sols
+    have hgg : g = g' := by
+      have hee : cmp g.1 g'.1 = .eq := hk.eq_trans (hk.eq_trans e hbp) (hk.eq_symm hg'p)
+      rcases pairwise_total_of_mem hasc g hg g' hg' with h1 | h1 | h1
+      · exact h1
+      · simp [hee] at h1
+      · rw [hk.swap g.1 g'.1, hee] at h1; simp [Ordering.swap] at h1
+    subst hgg
+    exact ⟨a', ha'', he'⟩
+
+end groups
+
+/-! ## the standard order qualifies -/
+
+/-- terms whose rationals have positive denominators (all terms the system builds). -/
+abbrev DTerm := {t : Term // Order.DenPos t}
+
+/-- the standard order of terms (C13), for any ordering of the variables, is a total preorder:
+    the theorems above apply to the witness and template instances of `bagofX`. -/
+theorem C25_standard_order_total (age : String → Nat) :
+    TotalCmp (fun a b : DTerm => Order.termCompare age a.1 b.1) where
+  refl a := Order.termCompare_refl age a.1
+  swap a b := Order.termCompare_swap age a.1 b.1
+  le_trans a b c h1 h2 := by
+    have t := Order.termCompare_tri age a.1 b.1 c.1 a.2 b.2 c.2
+    cases hab : Order.termCompare age a.1 b.1
+    · cases hbc : Order.termCompare age b.1 c.1
+      · rw [t.lt_lt hab hbc]; simp
+      · rw [← t.eq_r hbc, hab]; simp
+      · exact absurd hbc h2
+    · rw [t.eq_l hab]; exact h2
+    · exact absurd hab h1
+
+/-- non-vacuity: a total preorder on a plain type (so every theorem above has instances). -/
+example : TotalCmp (compare : Nat → Nat → Ordering) where
+  refl a := by simp
+  swap a b := by rw [Nat.compare_swap]
+  le_trans a b c h1 h2 := by
+    rw [Nat.compare_ne_gt] at *
+    omega
+
+/-! ## free variables and `^` -/
+
+/-- the witnesses of the repaired library code are exactly the variables of the goal that occur
+    neither in the template nor in the `^` prefix, in `term_variables/2` order of the goal. -/
+theorem C25_witnesses (t g : Term) (xs : List Term) :
+    witFixed (witnesses0 t g) (existVars xs) =
+      (termVars g).filter (fun v => !(termVars t).contains v && !(existVars xs).contains v) := by
+  rw [witnesses0_eq, witFixed, List.filter_filter]
+  apply List.filter_congr
+  intro v _
+  rw [Bool.and_comm]
+
+/-- membership form: `v` is a witness iff it occurs in the goal, not in the template and not in
+    a term to the left of a `^` (variables inside `\+` or an inner findall are NOT special). -/
+theorem C25_witness_iff (t g : Term) (xs : List Term) (v : String) :
+    v ∈ witFixed (witnesses0 t g) (existVars xs) ↔
+      v ∈ occVars g ∧ v ∉ occVars t ∧ v ∉ occVarsL xs := by
+  rw [mem_witFixed, witnesses0_eq, List.mem_filter]
+  simp [termVars, existVars, mem_dedup, and_assoc]
+
+/-- a chain `X1^X2^…^G` -/
+def caretChain (xs : List Term) (g : Term) : Term := xs.foldr (fun x acc => .str "^" [x, acc]) g
+
+/-- nested `^`: `rightmost_power/3` strips the whole chain `X1^…^Xn^G` (n ≥ 1) down to `G` and
+    returns `X1 … Xn`, provided `G` itself is not of the form `_^_` or `_:_^_`. -/
+theorem C25_rightmost_power_chain (g : Term) (hg : rightmostPower none g = (g, []))
+    (x : Term) (xs : List Term) :
+    rightmostPower none (caretChain (x :: xs) g) = (g, x :: xs) := by
+  induction xs generalizing x with
+  | nil =>
+    simp only [caretChain, List.foldr]
+    rw [rightmostPower]
+    split
+    · rfl
+    · rw [hg]
+  | cons y ys ih =>
+    have := ih y
+    simp only [caretChain, List.foldr] at this ⊢
+    rw [rightmostPower]
+    simp only [isVar, Bool.false_eq_true, if_false]
+    rw [this]
+
+/-- non-vacuity of `C25_rightmost_power_chain`: an ordinary goal satisfies its hypothesis. -/
+example : rightmostPower none (.str "p" [.var "X", .var "Y"]) = (.str "p" [.var "X", .var "Y"], []) := by
+  simp [rightmostPower, qual]
+
+/-- FINDING C25-1 (pinned code). `lists:append(Witnesses0, Witnesses, ExistentialVars)` fails
+    whenever there are more candidates than `^`-variables: `bagof(X, Y^f(X,Y,Z), L)` has the
+    candidates `[Y,Z]` and the existential variables `[Y]` — the call fails although the
+    repaired analysis gives the witness `Z`. -/
+theorem C25_pinned_fails_when_a_free_variable_remains (w0 ev : List String)
+    (h : ev.length < w0.length) : witPinned w0 ev = none := by
+  simp [witPinned]; omega
+
+/-- FINDING C25-1, second symptom: when it does not fail, the pinned code aliases the i-th
+    candidate with the i-th `^`-variable. It changes no binding only if the candidates are a
+    prefix of the `^`-variables — and then takes the remaining `^`-variables as witnesses. -/
+theorem C25_pinned_aliases (w0 ev : List String) (al : List (String × String)) (ws : List String)
+    (h : witPinned w0 ev = some (al, ws)) :
+    al = w0.zip ev ∧ ws = ev.drop w0.length ∧ ((∀ p ∈ al, p.1 = p.2) → w0 = ev.take w0.length) := by
+  simp only [witPinned] at h
+  split at h
+  · rename_i hle
+    simp only [Option.some.injEq, Prod.mk.injEq] at h
+    obtain ⟨rfl, rfl⟩ := h
+    refine ⟨rfl, rfl, ?_⟩
+    intro hall
+    apply List.ext_getElem
+    · simp; omega
+    · intro i h1 h2
+      have hi : i < (w0.zip ev).length := by simp; omega
+      have := hall ((w0.zip ev)[i]) (List.getElem_mem hi)
+      simpa using this
+  · simp at h
+
+/-- the two analyses on the statement's example `bagof(X, Y^f(X,Y,Z), L)`. -/
+example : witPinned ["Y", "Z"] ["Y"] = none := rfl
+example : witFixed ["Y", "Z"] ["Y"] = ["Z"] := by decide
+/-- `bagof(X, X^f(X,Y), L)`: the pinned code aliases `Y` with `X` and has no witness. -/
+example : witPinned ["Y"] ["X"] = some ([("Y", "X")], []) := rfl
+example : witFixed ["Y"] ["X"] = ["Y"] := by decide
 
 end Scryer.AllSol
